@@ -11,7 +11,7 @@ script bytes, `okeyB`).  The serialised line uses the byte-level instance (`H :=
 5 countersignatory payment point, 6 broadcaster funding, 7 countersignatory funding; 0 = malformed.
 
 ops
-  setup <l|s|a|z> <outbound> <holderDelay> <cpDelay> <txid> <vout> <channelValue> <obscure> <strict> <policy mode> <point id>   (the last two concern the implementation only)
+  setup <l|s|a|z> <outbound> <holderDelay> <cpDelay> <txid> <vout> <channelValue> <obscure> <strict> <policy mode> <point id> <via handler>   (the last three concern the implementation only)
   keys <k1> … <k7> <hash160 k1> <hash160 k5>          (hex; the 33-byte keys of ids 1..7)
   content <commitNum> <feerate> <toCs> <toBc> {o|r}:<value>:<hash>:<cltv>:<ripemd160 hex>…
         → canonical transaction rendering | HTLC-tx fields | hex of `ser (canon c)` (or `panic`)
@@ -244,7 +244,7 @@ def mutate (tx : CTx H) (ws : List (Option Script)) : List String → Option (CT
 
 def step (st : St) (toks : List String) : St × String :=
   match toks with
-  | ["setup", t, ob, hd, cd, txid, vout, cv, obs, strict, _mode, _point] =>
+  | ["setup", t, ob, hd, cd, txid, vout, cv, obs, strict, _mode, _point, _via] =>
     match ctype? t, bool? ob, nat? hd, nat? cd, nat? txid, nat? vout, nat? cv, nat? obs, bool? strict with
     | some t, some ob, some hd, some cd, some txid, some vout, some cv, some obs, some strict =>
       ({ st with setup := ⟨t, ob, hd, cd, txid, vout, cv, obs⟩, strict := strict }, "ok")
